@@ -294,6 +294,96 @@ def filter_posterior_objects(ctx, chi, rng, i):
         ctx.spec('C17.FilterPosterior.raises', False, inp, {'raised': repr(e)[:200]})
 
 
+def controller_objects(ctx, chi, rng, i):
+    """ProblemModellingController: error-model objects shared between outputs and between controllers, fixed
+    parameters, a population model on top; counts = names everywhere, names identify the outputs, the
+    posteriors handed out accept vectors of the reported length"""
+    import pandas as pd
+    from props import c04
+    n_out = int(rng.integers(1, 4))
+    n_mech = int(rng.integers(1, 3))
+    kinds = [c04.KINDS[int(rng.integers(4))] for _ in range(n_out)]
+    shared = n_out >= 2 and rng.random() < 0.5
+    if shared:
+        kinds = [kinds[0]] * n_out
+        em = c04.classes(chi)[kinds[0]][0]()
+        ems = [em] * n_out
+    else:
+        ems = [c04.classes(chi)[k][0]() for k in kinds]
+    em_names = {'G': ['Sigma'], 'M': ['Sigma rel.'], 'CM': ['Sigma base', 'Sigma rel.'], 'LN': ['Sigma log']}
+    outs = toy.ToyModel(n_out, n_mech, i).outputs()
+    want = ['psi%d' % k for k in range(n_mech)] + \
+        [((o + ' ') if n_out > 1 else '') + nm for o, k_ in zip(outs, kinds) for nm in em_names[k_]]
+    n_ids = int(rng.integers(1, 4))
+    rows = []
+    for pid in range(n_ids):
+        for o in range(n_out):
+            for t in np.sort(rng.choice(np.arange(1, 12) * 0.5, int(rng.integers(1, 3)), replace=False)):
+                rows.append({'ID': 'p%d' % pid, 'Time': float(t), 'Observable': 'obs%d' % o,
+                             'Value': float(rng.uniform(0.5, 3))})
+    df = pd.DataFrame(rows)
+    inp = {'object': 'ProblemModellingController', 'kinds': kinds, 'n_mech': n_mech, 'n_ids': n_ids,
+           'one_error_model_object_for_all_outputs': shared}
+    ctx.case('Controller/%dout%s' % (n_out, '+shared-error-model' if shared else ''),
+             nontrivial='Ctrl/%s/%d/%s' % (kinds, n_ids, shared) if (n_out > 1 or n_ids > 1) else False, sample=inp)
+    try:
+        c = chi.ProblemModellingController(toy.ToyModel(n_out, n_mech, i), ems)
+        names = c.get_parameter_names()
+        ctx.spec('C17.Controller.names_identify_outputs', names == want and c.get_n_parameters() == len(names), inp,
+                 {'names': names, 'expected': want, 'n': c.get_n_parameters()})
+        # a second controller from the same error-model objects: the first one keeps its names
+        c2 = chi.ProblemModellingController(toy.ToyModel(n_out, n_mech, i), ems)
+        ctx.spec('C17.Controller.names_identify_outputs', c.get_parameter_names() == want == c2.get_parameter_names(),
+                 dict(inp, second_controller_from_same_error_models=True), {'first': c.get_parameter_names()})
+        c.set_data(df, output_observable_dict={o: 'obs%d' % k for k, o in enumerate(outs)})
+        seq = ['set_data']
+        fixed = []
+        if rng.random() < 0.5 and len(want) > 1:
+            fixed = [want[j] for j in rng.choice(len(want), size=int(rng.integers(1, len(want))), replace=False)]
+            c.fix_parameters({nm: 1.0 for nm in fixed})
+            seq.append('fix_parameters')
+        free = [nm for nm in want if nm not in fixed]
+        names = c.get_parameter_names()
+        ctx.spec('C17.Controller.count_eq_names', names == free and c.get_n_parameters() == len(free),
+                 dict(inp, sequence=seq, fixed=fixed), {'names': names, 'expected': free})
+        n = len(free)
+        c.set_log_prior(pints.ComposedLogPrior(*[pints.UniformLogPrior(0, 10) for _ in range(n)]) if n > 1
+                        else pints.UniformLogPrior(0, 10))
+        post = c.get_log_posterior(individual='p0')
+        x = rng.uniform(0.5, 1.5, n)
+        with np.errstate(all='ignore'):
+            post(x)
+            _, g = post.evaluateS1(x) if any(nm.startswith('psi') for nm in free) else (None, np.zeros(n))
+        ctx.spec('C17.Controller.posterior_lengths', post.n_parameters() == n == len(post.get_parameter_names()) == len(g)
+                 and list(post.get_parameter_names()) == free, dict(inp, sequence=seq, fixed=fixed),
+                 {'posterior_names': list(post.get_parameter_names()), 'expected': free})
+        # a population model on top
+        subs = [chi.PooledModel() if rng.random() < 0.5 else chi.LogNormalModel() for _ in range(n)]
+        c.set_population_model(chi.ComposedPopulationModel(subs) if (n > 1 or rng.random() < 0.5) else subs[0])
+        seq.append('set_population_model')
+        pn = c.get_parameter_names()
+        ctx.spec('C17.Controller.count_eq_names', c.get_n_parameters() == len(pn) and len(set(pn)) == len(pn),
+                 dict(inp, sequence=seq), {'names': pn, 'n': c.get_n_parameters()})
+        nt = len(pn)
+        c.set_log_prior(pints.ComposedLogPrior(*[pints.LogNormalLogPrior(0, 0.3) for _ in range(nt)]) if nt > 1
+                        else pints.LogNormalLogPrior(0, 0.3))
+        hp = c.get_log_posterior()
+        m = hp.n_parameters()
+        ids = hp.get_id()
+        ctx.spec('C17.Controller.hierarchical_posterior_lengths',
+                 m == len(hp.get_parameter_names()) == len(ids) == len(hp.get_parameter_names(include_ids=True)) and
+                 hp.n_parameters(exclude_bottom_level=True) == nt and
+                 len(set(hp.get_parameter_names(include_ids=True))) == m, dict(inp, sequence=seq),
+                 {'n': m, 'names': len(hp.get_parameter_names()), 'ids': len(ids)})
+        xs = rng.uniform(0.5, 1.5, m)
+        with np.errstate(all='ignore'):
+            hp(xs)
+            _, g = hp.evaluateS1(xs)
+        ctx.spec('C17.Controller.hierarchical_posterior_lengths', len(g) == m, dict(inp, sequence=seq), {'len': len(g)})
+    except Exception as e:  # noqa
+        ctx.spec('C17.Controller.raises', False, inp, {'raised': repr(e)[:300]})
+
+
 def hier_objects(ctx, chi, rng, i, subs=None, n_ids=None):
     if subs is None:
         n_ids, subs = c02.gen_case(rng)
@@ -520,6 +610,8 @@ def run(ctx):
             ctx.guard(pre_reduced_error_models, ctx, chi, ctx.sub_rng(4 * i + 3), i)
         if i % 3 == 2:
             ctx.guard(filter_posterior_objects, ctx, chi, ctx.sub_rng(4 * i + 3), i)
+        if i % 3 == 0:
+            ctx.guard(controller_objects, ctx, chi, ctx.sub_rng(4 * i + 3), i)
     ctx.guard(sbml_objects, ctx, chi, ctx.sub_rng(10 ** 6), 12 if quick else 80)
     if not quick:
         opts = [(c, nd, 0, None) for c in range(7) for nd in (1, 2)]
